@@ -11,6 +11,7 @@ structure CSt where
   unreachable : List Nat := []
   mcq : Nat := 1
   numMembers : List (Nat × Nat) := []     -- member ↦ member count it currently sees (if overridden)
+  ntok : Nat := 0                          -- lock tokens handed out so far
 
 def CSt.route (s : CSt) (dm : Bytes) (k : Key) : Route := (s.routes.lookup (dm, k)).getD ⟨[0], []⟩
 def CSt.reach (s : CSt) : Reach := fun m => !(s.unreachable.contains m)
@@ -53,7 +54,12 @@ def fmtDRes : DMap.Res → String
 
 def range (n : Nat) : List Nat := List.range n
 
-def dataOps : List String := ["c.put", "c.get", "c.getx", "c.del", "c.expire"]
+def dataOps : List String := ["c.put", "c.get", "c.getx", "c.del", "c.expire", "c.getput", "c.incr", "c.decr", "c.lock",
+  "c.unlock", "c.lease", "c.destroy", "c.pipeline"]
+
+def tokBytes (n : Nat) : Bytes := ("tok" ++ toString n).toUTF8.toList
+def fmtLock : LockRes → String
+  | .acquired => "acquired" | .notAcquired => "notacquired" | .noSuchLock => "nolock" | .ok => "ok" | .other => "other"
 
 /-- C05: a member that sees fewer members than MemberCountQuorum answers cluster-quorum to everything -/
 def CSt.belowQuorum (s : CSt) (entry : Nat) : Bool :=
@@ -108,6 +114,78 @@ def clusterStep (s : CSt) (now : Int) (op : String) (a : List String) : Option (
     let k := unhx (arg 3)
     let (cl', res) := DMap.expire s.cfg (s.route dm k) s.reach s.cl dm k (int (arg 4) * 1000000) now
     some ({ s with cl := cl' }, fmtDRes res)
+  | "c.getput" =>
+    let dm := (arg 2).toUTF8.toList
+    let k := unhx (arg 3)
+    let (cl', res, old) := DMap.getPut s.cfg (s.route dm k) s.reach s.cl dm k (unhx (arg 4)) now
+    some ({ s with cl := cl' }, match res with
+      | .ok => (match old with | some x => hx x.val | none => "none")
+      | r => fmtDRes r)
+  | "c.incr" =>
+    let dm := (arg 2).toUTF8.toList
+    let k := unhx (arg 3)
+    let (cl', res) := DMap.incr s.cfg (s.route dm k) s.reach s.cl dm k (int (arg 4)) now
+    some ({ s with cl := cl' }, match res with | some n => toString n | none => "err")
+  | "c.decr" =>
+    let dm := (arg 2).toUTF8.toList
+    let k := unhx (arg 3)
+    let (cl', res) := DMap.incr s.cfg (s.route dm k) s.reach s.cl dm k (-(int (arg 4))) now
+    some ({ s with cl := cl' }, match res with | some n => toString n | none => "err")
+  | "c.lock" =>
+    let dm := (arg 2).toUTF8.toList
+    let k := unhx (arg 3)
+    let (cl', res) := DMap.lock s.cfg (s.route dm k) s.reach s.cl dm k (tokBytes s.ntok) (int (arg 4) * 1000000) now
+    match res with
+    | .acquired => some ({ s with cl := cl', ntok := s.ntok + 1 }, s!"tok{s.ntok}")
+    | r => some ({ s with cl := cl' }, fmtLock r)
+  | "c.unlock" =>
+    let dm := (arg 2).toUTF8.toList
+    let k := unhx (arg 3)
+    let tok := if arg 4 == "forged" then "forged".toUTF8.toList else (arg 4).toUTF8.toList
+    let (cl', res) := DMap.unlock s.cfg (s.route dm k) s.reach s.cl dm k tok now
+    some ({ s with cl := cl' }, fmtLock res)
+  | "c.lease" =>
+    let dm := (arg 2).toUTF8.toList
+    let k := unhx (arg 3)
+    let tok := if arg 4 == "forged" then "forged".toUTF8.toList else (arg 4).toUTF8.toList
+    let (cl', res) := DMap.lease s.cfg (s.route dm k) s.reach s.cl dm k tok (int (arg 5) * 1000000) now
+    some ({ s with cl := cl' }, fmtLock res)
+  | "c.destroy" =>
+    let dm := (arg 2).toUTF8.toList
+    some ({ s with cl := DMap.destroy s.cl dm }, "ok")
+  | "c.pipeline" =>
+    -- commands on different keys commute and commands on one key keep their order (one partition, one
+    -- connection): executing the queue in order gives every future's result
+    let dm := (arg 2).toUTF8.toList
+    let step := fun (acc : Cluster × List String) (c : String) =>
+      let f := c.splitOn ":"
+      let k := unhx (f.getD 1 "")
+      let r := s.route dm k
+      match f.getD 0 "" with
+      | "put" => let (c', res) := DMap.put s.cfg r s.reach acc.1 dm k (unhx (f.getD 2 "")) {} now; (c', acc.2 ++ [fmtDRes res])
+      | "get" => let (c', res) := DMap.get s.cfg r s.reach acc.1 dm k now; (c', acc.2 ++ [fmtDRes res])
+      | "getput" =>
+        let (c', res, old) := DMap.getPut s.cfg r s.reach acc.1 dm k (unhx (f.getD 2 "")) now
+        (c', acc.2 ++ [match res with | .ok => (match old with | some x => hx x.val | none => "none") | e => fmtDRes e])
+      | "del" => (DMap.del s.cfg r acc.1 dm k, acc.2 ++ ["1"])
+      | "incr" => let (c', res) := DMap.incr s.cfg r s.reach acc.1 dm k (int (f.getD 2 "")) now
+                  (c', acc.2 ++ [match res with | some n => toString n | none => "err"])
+      | "decr" => let (c', res) := DMap.incr s.cfg r s.reach acc.1 dm k (-(int (f.getD 2 ""))) now
+                  (c', acc.2 ++ [match res with | some n => toString n | none => "err"])
+      | "expire" => let (c', res) := DMap.expire s.cfg r s.reach acc.1 dm k (int (f.getD 2 "") * 1000000) now
+                    (c', acc.2 ++ [fmtDRes res])
+      | _ => (acc.1, acc.2 ++ ["bad-pipeline-cmd"])
+    let (cl', outs) := (a.drop 3).foldl step (s.cl, [])
+    some ({ s with cl := cl' }, "|".intercalate outs)
+  | "wb.del" =>
+    -- wb.del <i> <P|B> <dmap> <key>: a copy removed behind the system's back
+    let kind := if arg 1 == "B" then Kind.bak else Kind.prim
+    some ({ s with cl := s.cl.setCopy (nat (arg 0)) kind (arg 2).toUTF8.toList (unhx (arg 3)) none }, "ok")
+  | "wb.put" =>
+    -- wb.put <i> <P|B> <dmap> <key> <val> <ttl> <ts>: a copy planted behind the system's back
+    let kind := if arg 1 == "B" then Kind.bak else Kind.prim
+    let c : Copy := ⟨unhx (arg 4), int (arg 5), int (arg 6)⟩
+    some ({ s with cl := s.cl.setCopy (nat (arg 0)) kind (arg 2).toUTF8.toList (unhx (arg 3)) (some c) }, "ok")
   | "wb" =>
     let dm := (arg 0).toUTF8.toList
     let k := unhx (arg 1)
